@@ -12,6 +12,15 @@ func init() {
 	Controls["C23"] = append(Controls["C23"],
 		Control{"flush skips the final write", "kvdb/flushable/flushable.go", `return batch\.Write\(\)`, "if batch.ValueSize() == 0 { return nil }; return batch.Write()", "C23.flushable.flush"},
 		Control{"snapshot drops tombstones", "kvdb/flushable/flushable.go", `modifiedCopy\.Put\(it\.Key\(\), it\.Value\(\)\)`, "if it.Value() != nil { modifiedCopy.Put(it.Key(), it.Value()) }", "C23.flushable.snapshot"})
+	Controls["C10"] = append(Controls["C10"],
+		Control{"cached root list updated for the top frame only", "abft/store_roots.go", `s\.cache\.FrameRoots\.Get\(frame\); ok \{`, "s.cache.FrameRoots.Get(frame); ok && frame == root.Frame() {", "C10.slots"})
+	Controls["C20"] = append(Controls["C20"],
+		Control{"median taken over an ascending order", "emitter/ancestor/quorum_indexer.go", `return a\.seq > b\.seq`, "return a.seq < b.seq", "C20.median"})
+	Controls["C21"] = append(Controls["C21"],
+		Control{"age computed in wrapping nanosecond arithmetic", "emitter/doublesign/synced_heuristic.go", `return s\.Now\.Sub\(t\)`, "return time.Duration(s.Now.UnixNano() - t.UnixNano())", "C21.since"})
+	Controls["C23"] = append(Controls["C23"],
+		Control{"batch value cloned with append (nil for empty)", "kvdb/flushable/flushable.go", `common\.CopyBytes\(value\)\}\)`, "append([]byte(nil), value...)})", "C23.flushable.presence"},
+		Control{"snapshot copies tombstones as typed nil", "kvdb/flushable/flushable.go", `modifiedCopy\.Put\(it\.Key\(\), it\.Value\(\)\)`, "v, _ := it.Value().([]byte); modifiedCopy.Put(it.Key(), common.CopyBytes(v))", "C23.flushable.presence"})
 	Controls["C33"] = append(Controls["C33"],
 		Control{"over-weight Add keeps the stale entry", "utils/simplewlru/simplewlru.go", `(func \(c \*Cache\) Add\(key, value interface\{\}, weight uint\) \(evicted int\) \{\n)`, "${1}\tif weight > c.maxWeight {\n\t\treturn 0\n\t}\n", "C33.cache"})
 }
